@@ -20,7 +20,10 @@ def vhash(v):
     if h in ('l', 'dec', 'dt', 'dur'): return int(v[1]) % M
     if h == 's': return fnv(FNV_OFFSET, sx.unS(v[1]))
     if h == 'e': return fnv(fnv(FNV_OFFSET, sx.unS(v[1])), sx.unS(v[2]))
-    if h == 'set': return sum(vhash(x) for x in v[1:]) % M
+    if h == 'set':
+        # a set holds each value once (members compared after canonicalisation)
+        distinct = {sx.dump(sx.canon_value(x)): x for x in v[1:]}
+        return sum(vhash(x) for x in distinct.values()) % M
     if h == 'rec':
         if len(v) == 1: return 0
         hh = FNV_OFFSET
@@ -41,7 +44,7 @@ def set_wraps(v):
             h = vhash(x)
         except Exception:
             return False
-        key = sx.dump(x)
+        key = sx.dump(sx.canon_value(x))
         if key in used.values():
             continue
         s = h
